@@ -220,12 +220,17 @@ LoopAdmissible(st, c) == /\ \/ (c.op \in {"chmod_b", "chown_b"} /\ HasFlag(c, "F
                             \/ (c.op = "chmod_seq" /\ ChmodSeqOpts(c).follow) \/ (c.op = "chown_seq" /\ ChownSeqOpts(c).follow)
                          /\ LET ra == ResolveA(st, c) IN ra.o = "ok" /\ Exists(st.fs, ra.p)
                               /\ \E x \in Visit(st.fs, ra.p, TRUE, TRUE) : IsLink(st.fs, x) /\ TK(st.fs, st.fs[x].t) = "dir"
+\* C11 "never alters a symlink itself": whatever else is settled or not (chains of links, cycles, partial results of a failing
+\* call), no chmod changes the mode of an entry that is a link before and after the call
+ChmodOps == {"chmod", "chmod_b", "chmod_seq"}
+LinkModesKept(pre, post) == \A p \in DOMAIN pre.fs \cap DOMAIN post.fs : (IsLink(pre.fs, p) /\ IsLink(post.fs, p)) => post.fs[p].mode = pre.fs[p].mode
 JudgeStepO(pre, s, Own) ==
    LET c == s.c
        viol == IF s.same = "t" THEN "-" ELSE RepViolation(s.post)
    IN IF (c.aok = "f" /\ Ambiguous(c.a)) \/ (c.bok = "f" /\ Ambiguous(c.b)) THEN << <<"skip", "ambiguous-expansion">> >>
       ELSE LET o == Expected(pre, c, Own) IN
-      IF s.r.o = "Path::LinkLooping" /\ LoopAdmissible(pre, c) THEN << <<"ok", c.op, "linklooping">> >>
+      IF c.op \in ChmodOps /\ s.same = "f" /\ viol = "-" /\ ~LinkModesKept(pre, AbsOf(s.post)) THEN << Sig(pre, c, s.r, o.res, "mode-of-a-link-altered") >>
+      ELSE IF s.r.o = "Path::LinkLooping" /\ LoopAdmissible(pre, c) THEN << <<"ok", c.op, "linklooping">> >>
       ELSE IF s.r.o = "panic" THEN << Sig(pre, c, s.r, o.res, "panic") >>
       ELSE IF viol # "-" THEN << Sig(pre, c, s.r, o.res, "ILLFORMED:" \o viol) >>
       ELSE LET post == IF s.same = "t" THEN pre ELSE AbsOf(s.post)
